@@ -93,7 +93,16 @@ func (c10) Gen(rng *rand.Rand, tier string, k int) *Case {
 			c.Ops = append(c.Ops, OpSpec{Op: "assets"})
 		}
 	}
-	if rng.Intn(5) == 0 {
+	if rng.Intn(25) == 0 {
+		// dates "from 2000 on" have no upper end: a history around 2262-04-11 (where nanoseconds
+		// since 1970 leave an int64) or at the end of 2499
+		k := []int{95786, 182613}[rng.Intn(2)]
+		for i := range c.Ops {
+			if c.Ops[i].Op == "append" || c.Ops[i].Op == "getsince" {
+				c.Ops[i].From += k
+			}
+		}
+	} else if rng.Intn(5) == 0 {
 		// the history straddles a turn of the year (calendar arithmetic on dates shows there)
 		k := 345 + rng.Intn(20)
 		for i := range c.Ops {
